@@ -151,6 +151,26 @@ def run(tier="quick", seed=0, repo="/repo"):
         except Exception as e:  # noqa: BLE001
             ok, detail = False, f"{type(e).__name__}: {str(e)[:160]}"
         t.case(f"desc-reexec:{i}:{sql[:50]}", ("reexec", i), ok, function="fakesnow.cursor.FakeSnowflakeCursor.description", case={"step": i, "sql": sql}, expected=repr(want), actual=detail)
+    # a re-used cursor whose next statement is replaced by the no-op (nop_regexes): description is the status row's, at once
+    fs_n = new_instance(repo, nop_regexes=[r"^call\s", r"^grant\s"])
+    cn = fs_n.connect("db1", "s1")
+    cur_n = cn.cursor()
+    for i, (sql, want) in enumerate([
+        ("select 1 as a, 'x' as b", [("A", 0), ("B", 2)]),
+        ("call some_proc()", [("status", 2)]),
+        ("select 2.5::number(5,1) as c", [("C", 0)]),
+        ("grant select on t to role r", [("status", 2)]),
+        ("call other()", [("status", 2)]),
+    ]):
+        try:
+            cur_n.execute(sql)
+            got = [(d.name, d.type_code) for d in cur_n.description]
+            rows = cur_n.fetchall()
+            ok = got == want and (not rows or len(rows[0]) == len(got))
+            detail = f"{got} rows {rows}"
+        except Exception as e:  # noqa: BLE001
+            ok, detail = False, f"{type(e).__name__}: {str(e)[:160]}"
+        t.case(f"desc-nop:{i}:{sql[:40]}", ("desc-nop", i), ok, function="fakesnow.cursor.FakeSnowflakeCursor.description", case={"step": i, "sql": sql}, expected=repr(want), actual=detail)
     # NUMBER(p,s) over the whole range of scales (one and two digits): precision and scale reported as declared, values are Decimals
     for p_, s_ in [(38, 0), (10, 2), (18, 9), (20, 10), (30, 12), (38, 37), (11, 11)]:
         q = f"select 0::number({p_},{s_}) as v"
@@ -161,7 +181,7 @@ def run(tier="quick", seed=0, repo="/repo"):
         except Exception as e:  # noqa: BLE001
             ok, detail = False, f"{type(e).__name__}: {str(e)[:160]}"
         t.case(f"desc-number:{p_},{s_}", ("number", p_, s_), ok, function="fakesnow.types.describe_as_rowtype", case={"sql": q}, expected=f"FIXED precision {p_} scale {s_}", actual=detail)
-    return t.result(bound=f"{len(QUERIES)} statements x 3 read points; 9-step schema evolution re-executing the same text; 7 NUMBER(p,s) shapes")
+    return t.result(bound=f"{len(QUERIES)} statements x 3 read points; 9-step schema evolution re-executing the same text; 5 statements alternating with no-op'd ones on one cursor; 7 NUMBER(p,s) shapes")
 
 
 def replay(case, repo):
